@@ -273,7 +273,7 @@ Proof.
   unfold DefaultStatisticMaxRt in Hle.
   replace (Z.min 60000 (m_minrt (merge (view_buckets (nd_arr x) (nd_view x) now))))
     with (m_minrt (merge (view_buckets (nd_arr x) (nd_view x) now))) by lia.
-  split_ifs; reflexivity.
+  split_ifs; bool_facts; first [reflexivity | exfalso; lia].
 Qed.
 
 (* MaxConcurrency: maxConcurrency := 0; if v > maxConcurrency { maxConcurrency = v } *)
